@@ -120,6 +120,7 @@ struct OpI {
 struct Scenario {
   std::string id;
   int nvars = 4;
+  int decoy = 0;  // every thread also holds a guard of a second, unrelated EpochManager while it works on the first
   std::vector<std::vector<OpI>> progs;
   std::vector<std::string> raw_t;
   std::string raw_scen;
@@ -166,6 +167,11 @@ list_str(const std::vector<size_t> &v)
 
 struct World {
   EpochManager *mgr = nullptr;
+  // a second manager instance that is not part of the scenario: its guards must not influence the first manager
+  EpochManager *decoy = nullptr;
+  std::vector<EpochGuard> decoy_guards;
+  std::vector<char> decoy_taken;
+  bool use_decoy = false;
   std::vector<EpochGuard> guards;
   std::vector<const std::vector<size_t> *> lists;
   // ghosts
@@ -180,6 +186,14 @@ struct World {
     vsched::reset_names();
     vsched::set_node_naming(1 << 30, 0);
     vshim::prepare_thread_ids(static_cast<int>(kN));
+    use_decoy = sc.decoy != 0;
+    if (use_decoy) {
+      const int q = vsched::quiet_enter();
+      decoy = new EpochManager{};  // before allocation tracking starts: its list nodes are not counted
+      vsched::quiet_leave(q);
+      decoy_guards = std::vector<EpochGuard>(sc.progs.size());
+      decoy_taken.assign(sc.progs.size(), 0);
+    }
     pn_on = true;
     mgr = new EpochManager{};
     vsched::name_object(&(mgr->global_epoch_), "G");
@@ -295,6 +309,25 @@ struct World {
     } else {
       tok("BADOP");
     }
+    if (use_decoy && !decoy_taken[tid] &&
+        (o.name == "gid" || o.name == "hbget" || o.name == "guard" || o.name == "gpe")) {
+      // the thread owns its ID now: it takes a guard of the other manager and keeps it until it finishes
+      const int q = vsched::quiet_enter();
+      decoy_guards[tid] = decoy->CreateEpochGuard();
+      vsched::quiet_leave(q);
+      decoy_taken[tid] = 1;
+    }
+  }
+
+  void
+  drop_decoy(int tid)
+  {
+    if (use_decoy && decoy_taken[tid]) {
+      const int q = vsched::quiet_enter();
+      decoy_guards[tid] = EpochGuard{};
+      vsched::quiet_leave(q);
+      decoy_taken[tid] = 0;
+    }
   }
 };
 
@@ -308,6 +341,7 @@ run_child(const Scenario &sc)
     bodies.emplace_back([&w, &sc, t] {
       const auto &prog = sc.progs[t];
       for (size_t k = 0; k < prog.size(); ++k) w.exec(static_cast<int>(t), prog[k], static_cast<int>(k));
+      w.drop_decoy(static_cast<int>(t));
       // the thread stops running user code: its ID may be given to somebody else from now on
       for (auto &o : w.owner)
         if (o == static_cast<long>(t)) o = -1;
@@ -326,6 +360,9 @@ run_child(const Scenario &sc)
   w.guards.clear();
   delete w.mgr;
   std::printf("PNODES live=%ld\n", pn_live);
+  pn_on = false;
+  w.decoy_guards.clear();
+  delete w.decoy;
   std::printf("END %s\n", status.c_str());
   std::fflush(stdout);
   return 0;
@@ -351,6 +388,7 @@ main()
         auto kv = split(w[i], '=');
         if (kv.size() != 2) continue;
         if (kv[0] == "nvars") sc.nvars = std::stoi(kv[1]);
+        if (kv[0] == "decoy") sc.decoy = std::stoi(kv[1]);
         if (kv[0] == "policy") sc.opt.policy = std::stoi(kv[1]);
         if (kv[0] == "seed") sc.opt.seed = std::stoull(kv[1]);
         if (kv[0] == "max_steps") sc.opt.max_steps = std::stoi(kv[1]);
